@@ -418,6 +418,47 @@ def sym_iterable_loader_naming(vc):
         vc.explore(fk2, thunk3)
 
 
+def sym_iterable_loader_lazy(vc):
+    """iterable_loader.process_datapackage (C06): defining the package reads NOTHING of the source itself -- the storage handed to
+    Resource(..) wraps the un-run generator of handle_iterable over that very source; the only rows read before the row phase are
+    the ones schema inference samples through that storage (iterable_storage.describe: at most SAMPLE_SIZE, its own contract).
+    Holds whatever the source is (a list, a generator, an object with __len__ that produces its rows lazily)."""
+    from pyvc.api import real_function, check, cover, Stream, UFunc, Opaque, PyDict, PyList, GenObj, Instance
+    fk = vc.under_contract('dataflows/helpers/iterable_loader.py', ['iterable_loader', 'process_datapackage'])
+    vc.under_contract('dataflows/helpers/iterable_loader.py', ['iterable_loader', '__init__'])
+    for sized in (False, True):
+        def thunk(it, sized=sized):
+            IL = real_function(it, 'dataflows.helpers.iterable_loader', 'iterable_loader')
+            m = it.module('dataflows.helpers.iterable_loader')
+            src = Stream('user_iterable', lambda it_: it_.fresh_row('item'))
+            if sized:
+                src.kinds = ('Sized', 'Iterable', 'Collection')       # a source that knows its length and still produces rows lazily
+            il = it.call(IL, [src])
+            made = {}
+
+            def Resource(it_, a, k):
+                made['storage'] = k.get('storage')
+                r = Opaque('Resource', 'new_res')
+                r.attrs['descriptor'] = a[0]
+                r.attrs['call:infer'] = lambda it2, o, a2, k2: None
+                return r
+            m.attrs['Resource'] = UFunc('Resource', Resource, False)
+            dp = Opaque('Package', 'dp')
+            dp.attrs['descriptor'] = PyDict({'resources': PyList([])})
+            dp.attrs['resources'] = Opaque('reslist', 'resources')
+            dp.attrs['resources'].attrs['__len__'] = 0
+            it.call(it.lib.getattr_(it, il, 'process_datapackage'), [dp])
+            tag = '[sized]' if sized else '[plain]'
+            st = made.get('storage')
+            g = st.attrs.get('iterable') if isinstance(st, Instance) else None
+            check(it, 'storage-wraps-the-unrun-row-generator-of-the-source' + tag, isinstance(g, GenObj) and fn_named(g, 'handle_iterable'))
+            check(it, 'nothing-of-the-source-is-read-while-the-package-is-defined' + tag, src.drained is False and
+                  not [e for e in it.path.events if e.kind in ('Pull', 'Drain', 'Take') and getattr(e, 'src', None) in (src, src.name)])
+            cover(it, 'reachable' + tag)
+        paths = vc.explore(fk, thunk)
+        expect_no_raise_or_same(vc, fk, paths)
+
+
 # ------------------------------------------------------------------------------------------------ bounded fault injection
 
 def nat_fault_injection(h):
@@ -888,6 +929,18 @@ def nat_cooperating_steps(h):
                     ok = a[0] == b[0] and (a[0] != 'ok' or a[1] == b[1])
                     h.check(ok, 'dataflows/processors/duplicate.py::duplicate.func', ('duplicate then %s on %s' % (fname, which), to_end, nsrc),
                             b[1][1:] if b[0] == 'ok' else b[:2], a[1][1:] if a[0] == 'ok' else a[:2])
+    # a step that keeps rows for later (duplicate's copy) followed by a step that edits a NESTED value of the row in place
+    nested = [{'a': i, 'tags': ['t%d' % i], 'meta': {'n': i}} for i in range(4)]
+
+    def tag(row):
+        row['tags'].append('seen')
+        row['meta']['n'] += 100
+    for to_end in (False, True):
+        mk = lambda: [duplicate('res_1', duplicate_to_end=to_end), tag]
+        a = h.run(lambda: lazy([[dict(r, tags=list(r['tags']), meta=dict(r['meta'])) for r in nested]], mk()))
+        b = h.run(lambda: stepwise([[dict(r, tags=list(r['tags']), meta=dict(r['meta'])) for r in nested]], mk()))
+        h.check(a[0] == b[0] == 'ok' and a[1][0] == b[1][0], 'dataflows/processors/duplicate.py::saver', ('duplicate then in-place edit of nested values', to_end),
+                b[1][0] if b[0] == 'ok' else b[:2], a[1][0] if a[0] == 'ok' else a[:2])
     # removing / merging resources behind a SEQUENTIAL source (one file read front to back by per-resource readers)
     with tempfile.TemporaryDirectory() as td:
         path = os.path.join(td, 's.ndjson')
